@@ -49,17 +49,22 @@ func ToImplRep(v ref.Value, rep MapRep) value.Value {
 		}
 		return value.NewList(items...)
 	case *ref.Map:
-		return BuildMap(x, rep)
+		return buildMap(x, rep, rep)
 	}
 	panic(fmt.Sprintf("obs: cannot convert %T to an implementation value", v))
 }
 
-// BuildMap creates the implementation map in the requested representation.
+// BuildMap creates the implementation map in the requested representation; nested
+// values are built in the ordered default representation.
 func BuildMap(x *ref.Map, rep MapRep) value.Map {
+	return buildMap(x, rep, RepListMap)
+}
+
+func buildMap(x *ref.Map, rep, inner MapRep) value.Map {
 	lm := func(keys []string, vals []ref.Value) listMap.ListMap[value.Value] {
 		m := listMap.New[value.Value](len(keys))
 		for i, k := range keys {
-			m = m.Append(k, ToImplRep(vals[i], rep))
+			m = m.Append(k, ToImplRep(vals[i], inner))
 		}
 		return m
 	}
@@ -68,7 +73,7 @@ func BuildMap(x *ref.Map, rep MapRep) value.Map {
 	case RepRealMap:
 		rm := value.RealMap{}
 		for i, k := range x.Keys {
-			rm[k] = ToImplRep(x.Vals[i], rep)
+			rm[k] = ToImplRep(x.Vals[i], inner)
 		}
 		return value.NewMap(rm)
 	case RepAppend:
@@ -83,7 +88,7 @@ func BuildMap(x *ref.Map, rep MapRep) value.Map {
 		}
 		var cur value.Value = value.NewMap(lm(nil, nil))
 		for i, k := range x.Keys {
-			cur, err = f.Eval(cur, value.String(k), ToImplRep(x.Vals[i], rep))
+			cur, err = f.Eval(cur, value.String(k), ToImplRep(x.Vals[i], inner))
 			if err != nil {
 				panic(err)
 			}
